@@ -77,7 +77,12 @@ class P:
         # nesting far beyond what any stack holds (parentheses, a chain of one operator, nested aggregations): an error, not a dead process;
         # and nesting the parser accepts must also survive everything behind the parser
         deep = [b"(" * 3000000 + b"1" + b")" * 3000000, b"vector(1)" + b"+1" * 3000000, b"sum(" * 1500000 + b"vector(1)" + b")" * 1500000,
-                b"(" * 20000 + b"vector(1)" + b")" * 20000, b"vector(1)" + b"+1" * 20000]
+                b"(" * 20000 + b"vector(1)" + b")" * 20000, b"vector(1)" + b"+1" * 20000,
+                # ... a selector in millions of parentheses, and a template nested deeper than text/template's recursive parser survives (D37)
+                b"count_over_time(" + b"(" * 3000000 + b"{}" + b")" * 3000000 + b"[1m])",
+                b"{} | line_format `{{ " + b"(" * 1500000 + b"1" + b")" * 1500000 + b" }}`",
+                b"{} | line_format `" + b"{{if .a}}" * 400000 + b"{{end}}" * 400000 + b"`",
+                b"{} | label_format x=`{{ " + b"(" * 60000 + b"1" + b")" * 60000 + b" }}`"]
         if tier != "quick":
             deep += [b'{a="b"} | ' + b"(" * 5000000 + b'a="1"' + b")" * 5000000, b'{a="b"} | a="1"' + b' and a="1"' * 3000000]
         for q in deep:
